@@ -673,7 +673,8 @@ def cost_focus_options(draw, inst, stab=None, pc=None):
     for c in opts['crit']:
         if c[0] == name:
             c[2] = list(draw(st.sampled_from([[], [1], [2], [0], [0, 1], [0, 2], [1, 0], [1, 1],
-                                              [1, 2], [2, 1], [3, 1], [0, 0]])))
+                                              [1, 2], [2, 1], [3, 1], [0, 0], [0, 1], [0, 3],
+                                              [2, 0], [0]])))
     # positions: maxsize lowest, the cost criterion next, the tail last
     pos = sorted(c[1] for c in opts['crit'])
     rank = {'maxsize': 0, name: 1}
